@@ -107,6 +107,24 @@ def execute(cfg, prefix):
             plan = tuple(x for x in plan if x != "pin")
         with_dpr = "DPR" in spec
         msgs = make_msgs(tuple(k for k in spec if k != "DPR"))
+        stalled = None
+        if "stall" in plan:
+            # set-up (default schedule, not explored): the first message is queued, the peer takes a part of it and then stops reading -
+            # the node is at rest with the remainder pending.  In the explored window the peer reads again in the very instant in which
+            # the other messages are queued: the I/O thread resumes its partial write while the writer thread appends
+            plan = tuple(x for x in plan if x != "stall")
+            stalled = msgs[0]
+            s.fs.send_plan.append(SEND_OPTS["half"])
+
+            def stop_reading(fs, chunk):
+                fs.send_blocked = True
+                fs.on_sent = None
+            s.fs.on_sent = stop_reading
+            nw.node.send_message(conn, stalled)
+            nw.run()
+            if not s.fs.send_blocked or not len(conn.write_buffer):
+                raise sk.HarnessError("set-up: no remainder pending behind a partial write")
+            msgs = msgs[1:]
         for name in plan:
             s.fs.send_plan.append(SEND_OPTS[name])
         # split the messages over the producer threads round-robin
@@ -114,8 +132,8 @@ def execute(cfg, prefix):
 
         # every message handed to this connection during the window, whoever queues it (producers, or the node's own reader answering
         # a DPR), with the kernel-order interval of its queueing call: only one simulated thread runs at a time
-        allmsgs = list(msgs)
-        log = []
+        allmsgs = ([stalled] if stalled is not None else []) + list(msgs)
+        log = [("call", 0), ("ret", 0)] if stalled is not None else []
         orig_add = conn.add_out_msg
 
         def add_out_msg(m):
@@ -134,6 +152,8 @@ def execute(cfg, prefix):
                 nw.node.send_message(conn, m)
         nw.world.points_on = True
         ch.window = True
+        if stalled is not None:
+            s.fs.send_blocked = False
         for i, lst in enumerate(shares):
             sk.spawn(functools.partial(produce, lst), f"producer{i}")
         if with_dpr:
@@ -310,6 +330,10 @@ def configs(tier):
     out.append(((("ok", "bad2", "ok", "ok"), 1, ()), 1))
     out.append(((("ok", "badhdr", "ok"), 1, ()), 1))
     out.append(((("ok", "ok"), 1, ("pin",)), 2))
+    # a remainder is pending behind a partial write when the next messages are queued and the peer reads again
+    out.append(((("ok", "ok"), 1, ("stall",)), 2))
+    out.append(((("ok", "ok", "ok"), 1, ("stall", "1")), 1 if tier != "thorough" else 2))
+    out.append(((("ok", "bad", "ok"), 1, ("stall",)), 1 if tier != "thorough" else 2))
     out.append(((("ok", "ok", "ok"), 1, ("pin", "half")), 1))
     out.append(((("badhdr", "ok"), 2, ("half",)), 0))
     out.append(((("ok", "ok", "DPR"), 1, ()), 1))
